@@ -180,7 +180,7 @@ def doIstep (toks : List String) : String :=
           | some a, none => if hcur < a then a else hcur
           | none, some b => if b < hcur then b else hcur
           | none, none => hcur
-        let (out, n) := istepLoop method (ui == "1") r acc (optOf umin) (optOf umax) tr 200 t0 y0 hc 0
+        let (out, n) := istepLoop method (ui == "1") r acc (optOf umin) (optOf umax) tr 1000000 t0 y0 hc 0
         fmtFloats "O istep" out ++ " " ++ toString n
       | _ => "O istep ERR"
     | none => "O istep ERR"
